@@ -996,7 +996,7 @@ def install(ex):
         "vCase": p_case, "vNondetStringN": p_nondet_string_n, "vYield": p_yield, "vChoose": p_choose, "vNote": p_noop,
     }
     from . import conc as _conc
-    ex.prim_handlers.update({"vGo": _conc.p_go, "vRun": _conc.p_run, "vAllDone": _conc.p_all_done, "vThreadDone": _conc.p_thread_done, "vThreadIdle": _conc.p_thread_idle})
+    ex.prim_handlers.update({"vGo": _conc.p_go, "vRun": _conc.p_run, "vAllDone": _conc.p_all_done, "vThreadDone": _conc.p_thread_done, "vThreadIdle": _conc.p_thread_idle, "vThreadBlocked": _conc.p_thread_blocked, "vStuck": _conc.p_stuck})
     for fname, fn in ex.prog.funcs.items():
         rel = fn.get("relname")
         if rel in ex.prim_handlers and "(" not in fname:
